@@ -885,12 +885,26 @@ func (c *Client) traces(ctx context.Context, url string, bm blockmap, start, lim
 			const tag = "trace_block"
 			return fmt.Errorf("rpc=%s %w", tag, res.Error)
 		}
-		if len(res.Result) == 0 {
+		if res.Result == nil {
 			return fmt.Errorf("no rpc error but empty result")
+		}
+		if len(res.Result) == 0 {
+			// a block without transactions has no traces
+			continue
+		}
+		if n := res.Result[0].BlockNum; n != start+i {
+			const tag = "trace_block out of range block. num=%d requested=%d"
+			return fmt.Errorf(tag, n, start+i)
 		}
 		block, ok := bm[res.Result[0].BlockNum]
 		if !ok {
 			return fmt.Errorf("missing block in block map")
+		}
+		for i := range res.Result {
+			if res.Result[i].BlockNum != res.Result[0].BlockNum {
+				const tag = "trace_block traces of different blocks in one response. num=%d first=%d"
+				return fmt.Errorf(tag, res.Result[i].BlockNum, res.Result[0].BlockNum)
+			}
 		}
 		block.Header.Hash.Write(res.Result[0].BlockHash)
 
